@@ -57,6 +57,25 @@ theorem lcpB_nil_right (a : Bytes) : lcpB a [] = 0 := by cases a <;> rfl
 theorem lcpB_cons_ne {a b : UInt8} (h : a ≠ b) (x y : Bytes) : lcpB (a :: x) (b :: y) = 0 := by
   simp [lcpB, h]
 
+/-! ### the inner loop of the search computes the common prefix -/
+
+theorem cowInner_eq (key rest : Bytes) :
+    (cowInner key rest).1 = lcpB key rest ∧
+    ((cowInner key rest).2 = true ↔ lcpB key rest < key.length ∧ lcpB key rest < rest.length) := by
+  induction key generalizing rest with
+  | nil => cases rest <;> simp [cowInner, lcpB]
+  | cons k ks ih =>
+    cases rest with
+    | nil => simp [cowInner, lcpB]
+    | cons b bs =>
+      simp only [cowInner, lcpB]
+      by_cases h : k = b
+      · subst h
+        obtain ⟨h1, h2⟩ := ih bs
+        simp only [ne_eq, not_true_eq_false, if_false, if_true, h1, List.length_cons, Nat.add_lt_add_iff_right]
+        exact ⟨trivial, h2⟩
+      · simp [h]
+
 /-! ### tokens of the grammar -/
 
 theorem nameOk_cons {b : UInt8} {n : Bytes} (h : nameOk (b :: n) = true) :
